@@ -164,7 +164,7 @@ def gen(tier, rng, boost=1):
                 yield Case(build((op, P(lit), Leaf("fail", None, 1))), "paren")
                 yield Case(build((op, P(("and", Leaf("lit", 4), lit)), Leaf("thunk", 8, 1))), "paren")
     # random trees
-    m = (600 if quick else 8000) * boost
+    m = (600 if quick else 60000) * boost
     for _ in range(m):
         nid = [0]
         yield Case(build(gen_expr(rng, rng.choice([1, 2, 2, 3]), nid)), "tree")
